@@ -1,11 +1,11 @@
 CONSTANTS
   Apps = {"a1"}
-  Scripts <- Scripts_none
+  Scripts <- Scripts_c27_block
   Cap = 2
-  MaxFaults = 9
-  FaultKinds = {"reset", "restart", "outage"}
-  Outcomes = {"data", "keepalive", "timeout", "fault"}
-  MaxPub = 400
+  MaxFaults = 0
+  FaultKinds = {}
+  Outcomes = {"data", "keepalive", "timeout"}
+  MaxPub = 1
   AutoReconnect = TRUE
   SrvTransfers = FALSE
   Dev_BlockingSignals = FALSE
@@ -14,8 +14,10 @@ CONSTANTS
   Dev_RecreateErrorLost = TRUE
   Dev_ArmIgnoresClose = TRUE
   Dev_DrainDropsLoss = TRUE
-  Hist = FALSE
-SPECIFICATION TSpec
-CONSTRAINT HighWater
-POSTCONDITION Accepted
+  Hist = TRUE
+INIT Init
+NEXT NextGen
+VIEW view
+CONSTRAINT Bound
+INVARIANT InvEmitFull
 CHECK_DEADLOCK FALSE
